@@ -240,9 +240,10 @@ def _no_cell_stores(fname, stmts, arrays):
 
 
 def _col_assign(fname, st, row):
-    """`col = fasthash64(key, row) % width` (pinned as a string by the rowhash constants of C14); returns the name"""
+    """`col = <row hash of the key>` — WHICH hash is not part of the cell update (the row-hash expression is pinned as a
+    string by the rowhash constants, an obligation of C14 only); the column must not be read off the tables; returns the name"""
     if not (isinstance(st, ast.Assign) and len(st.targets) == 1 and isinstance(st.targets[0], ast.Name)
-            and any(isinstance(c, ast.Call) and getattr(c.func, "id", "") == "fasthash64" for c in ast.walk(st.value))):
+            and not any(isinstance(c, ast.Name) and c.id in ("lhh", "lhh_count", "key_lens") for c in ast.walk(st.value))):
         raise TranslatorError(f"{fname}: first statement of the row loop is not the column assignment")
     return st.targets[0].id
 
